@@ -440,6 +440,12 @@ Definition marks_optional (s : tyexpr) : bool :=
   | Raise _ => false
   end.
 
+Definition is_fnone (f : field) : bool := match f with FNone => true | _ => false end.
+
+(* a member of a Union that denotes NoneField: None itself, or a spelling converted to NoneField (NoneField, NoneField()) *)
+Definition member_none (a : tyexpr) : bool :=
+  is_tnone a || match convert a with Ok f => is_fnone f | Raise _ => false end.
+
 Record decl := {
   d_name : pystr;
   d_annot : bool;                 (* `a: s` (true) or `a = s` (false) *)
